@@ -4,7 +4,7 @@
 
 use crate::prng::Rng;
 
-pub const TEMPLATES: [(&str, &str, usize); 8] = [
+pub const TEMPLATES: [(&str, &str, usize); 10] = [
     (
         "list-map-fold",
         r#"data List[A] { Nil, Cons(x: A, xs: List[A]) }
@@ -135,6 +135,51 @@ def show(o: Opt[i64]): i64 { o.case[i64] { None => (println_i64(-1); 0), Some(v)
 def main(a: i64, b: i64, c: i64): i64 {
   let r: i64 = show(chain(Cons(b, Cons(c, Cons(b - c, Nil))), a));
   show(chain(Cons(3, Cons(b, Nil)), r)) + r
+}
+"#,
+        3,
+    ),
+    (
+        "lifted-rest",
+        r#"data List[A] { Nil, Cons(x: A, xs: List[A]) }
+data Opt[A] { None, Some(v: A) }
+def upto(n: i64): List[i64] { if n <= 0 { Nil } else { Cons(n, upto(n - 1)) } }
+def sum(l: List[i64]): i64 { l.case[i64] { Nil => 0, Cons(x, xs) => x + sum(xs) } }
+def first(l: List[i64]): Opt[i64] { l.case[i64] { Nil => None, Cons(x, xs) => Some(x) } }
+def pick(n: i64, a: i64, b: i64, c: i64, d: i64): i64 {
+  let l: List[i64] = upto(n);
+  if n < 3 { if a < b { sum(l) } else { c } } else { if b < 0 { a } else { d } }
+}
+def pick2(n: i64, a: i64, b: i64, c: i64): Opt[i64] {
+  let o: Opt[i64] = first(upto(n));
+  if a == 0 { if b < a { o } else { Some(a) } } else { if b < a { Some(b) } else { Some(c) } }
+}
+def show(o: Opt[i64]): i64 { o.case[i64] { None => (println_i64(-1); 0), Some(v) => (println_i64(v); v) } }
+def main(n: i64, a: i64, b: i64): i64 {
+  println_i64(pick(n, a, b, 77, 88));
+  println_i64(pick(2, b, a, 55, 66));
+  let r: i64 = show(pick2(n, a, b, 99));
+  show(pick2(n - 1, b - a, a, 44)) + r
+}
+"#,
+        3,
+    ),
+    (
+        "effect-order",
+        r#"data List[A] { Nil, Cons(x: A, xs: List[A]) }
+data Trio { T3(a: i64, l: List[i64], b: i64) }
+codata Fun2[A, B, C] { apply2(x: A, y: B): C }
+def say(v: i64): i64 { println_i64(v); v }
+def sum(l: List[i64]): i64 { l.case[i64] { Nil => 0, Cons(x, xs) => x + sum(xs) } }
+def use3(t: Trio): i64 { t.case { T3(a, l, b) => ((a * 100) + (sum(l) * 10)) + b } }
+def three(a: i64, b: i64, c: i64): i64 { ((a * 7) - (b * 3)) + c }
+def main(n: i64, a: i64, b: i64): i64 {
+  let t: Trio = T3(say(a), Cons(say(b), Cons(say(n), Nil)), say(a - b));
+  println_i64(use3(t));
+  println_i64(three(say(1), (print_i64(2); b), say(3)));
+  let f: Fun2[i64, i64, i64] = new { apply2(x, y) => (x * 2) - y };
+  println_i64(f.apply2[i64, i64, i64](say(n + 1), say(n + 2)));
+  if say(a) < say(b) { say(10) - say(20) } else { say(30) * say(2) }
 }
 "#,
         3,
